@@ -139,6 +139,8 @@ const MACROS: [&str; 4] = ["FOO", "BAR", "BAZ", "QUX"];
 /// macros defined without a value: only ever tested with #ifdef / #ifndef (an empty macro in an
 /// #if expression is not a truth assignment)
 const FLAGS: [&str; 2] = ["ZED", "WIB"];
+/// function-like macros: defined names for #ifdef / #ifndef / #undef like the FLAGS
+const FNS: [&str; 2] = ["FNA", "FNB"];
 
 struct Gen<'a, 'b> {
     g: &'a mut G<'b>,
@@ -191,7 +193,13 @@ impl<'a, 'b> Gen<'a, 'b> {
                 }
                 1 => {
                     let valued = self.g.chance(3, 4);
-                    let m = if valued { self.g.pick(&MACROS).to_string() } else { self.g.pick(&FLAGS).to_string() };
+                    let m = if valued {
+                        self.g.pick(&MACROS).to_string()
+                    } else if self.g.chance(1, 2) {
+                        self.g.pick(&FNS).to_string()
+                    } else {
+                        self.g.pick(&FLAGS).to_string()
+                    };
                     // a redefinition of a defined macro is an error in this preprocessor: only
                     // define what is (on the model's path) undefined; in dead regions anything goes
                     if live && self.table.contains_key(&m) {
@@ -204,7 +212,11 @@ impl<'a, 'b> Gen<'a, 'b> {
                     out.push(Item::Define(m, v));
                 }
                 2 => {
-                    let m = if self.g.chance(3, 4) { self.g.pick(&MACROS).to_string() } else { self.g.pick(&FLAGS).to_string() };
+                    let m = match self.g.below(8) {
+                        0..=4 => self.g.pick(&MACROS).to_string(),
+                        5 => self.g.pick(&FNS).to_string(),
+                        _ => self.g.pick(&FLAGS).to_string(),
+                    };
                     if live {
                         self.table.remove(&m);
                     }
@@ -233,10 +245,10 @@ impl<'a, 'b> Gen<'a, 'b> {
 
     fn group(&mut self, live: bool, depth: u32) -> Group {
         let any = |g: &mut G| -> String {
-            if g.chance(1, 2) {
-                g.pick(&MACROS).to_string()
-            } else {
-                g.pick(&FLAGS).to_string()
+            match g.below(5) {
+                0 | 1 => g.pick(&MACROS).to_string(),
+                2 => g.pick(&FNS).to_string(),
+                _ => g.pick(&FLAGS).to_string(),
             }
         };
         let head = match self.g.below(4) {
@@ -391,7 +403,12 @@ impl Render {
             let live_now = live && self.error.is_none();
             match it {
                 Item::Marker(k) => {
-                    self.emit(&format!("char m{};", k));
+                    if k % 3 == 0 {
+                        // a line with a string literal: its text must stay tied to this line
+                        self.emit(&format!("const char m{}[] = \"txt{}\";", k, k));
+                    } else {
+                        self.emit(&format!("char m{};", k));
+                    }
                     if live_now {
                         self.markers.insert(*k);
                     }
@@ -399,6 +416,7 @@ impl Render {
                 Item::Define(m, v) => {
                     match v {
                         Some(b) => self.emit(&format!("#define {} {}", m, *b as u8)),
+                        None if FNS.contains(&m.as_str()) => self.emit(&format!("#define {}(x) ((x) + 1)", m)),
                         None => self.emit(&format!("#define {}", m)),
                     }
                     if live_now {
@@ -588,6 +606,26 @@ pub fn check(case: &Case, st: &mut Stats) -> Result<(), String> {
                 .filter_map(|v| v.name.strip_prefix('m').and_then(|n| n.parse::<u32>().ok()))
                 .filter(|k| all_markers.contains(k))
                 .collect();
+            for v in &cap.vars {
+                if let Some(k) = v.name.strip_prefix('m').and_then(|n| n.parse::<u32>().ok()) {
+                    if k % 3 == 0 && k > 0 && all_markers.contains(&k) && !case.headers.contains(&k) {
+                        let want: Vec<u8> = format!("txt{}\0", k).into_bytes();
+                        let got: Vec<u8> = match &v.def {
+                            cc::Def::Array(a) => a.iter().filter_map(|x| if let cc::Val::Int(i) = x { Some(*i as u8) } else { None }).collect(),
+                            _ => vec![],
+                        };
+                        if got != want {
+                            return Err(format!(
+                                "C07-text: the line `const char m{}[] = \"txt{}\";` of a selected region reached the compiler with other text: bytes {:?}",
+                                k,
+                                k,
+                                String::from_utf8_lossy(&got)
+                            ));
+                        }
+                        st.count("string_markers_checked");
+                    }
+                }
+            }
             if present != exp.markers {
                 let missing: Vec<_> = exp.markers.difference(&present).collect();
                 let extra: Vec<_> = present.difference(&exp.markers).collect();
